@@ -77,13 +77,17 @@ theorem C20_gen_other_sorts :
 
 /-! ### Order independence -/
 
-/-- **Permutation invariance.**  The string that is hashed does not change when the
+/-- **Permutation invariance** (partial: the full statement - for every info whose
+identities are pairwise distinct in (category, type, lang), with no condition on forms and
+fields - is false of the code, `C20_perm_invariant_fails`; the three kinds of inputs that are
+inside the property's quantifier and outside `Info.WF` are `known:` findings).
+The string that is hashed does not change when the
 identities, the features, the forms, the fields inside any form and the values inside any
 field are rearranged in any way — for every info whose identities are pairwise distinct in
 (category, type, lang), whose forms are pairwise distinct in FORM_TYPE, whose fields are
 pairwise distinct in `var` within a form and whose FORM_TYPE fields carry at most one value
 (`Info.WF`: the inputs XEP-0115 §5.4 does not declare ill-formed). -/
-theorem C20_perm_invariant (i j : Info) (h : InfoEqv i j) (wf : i.WF) : verImpl i = verImpl j := by
+theorem C20_perm_invariant_partial (i j : Info) (h : InfoEqv i j) (wf : i.WF) : verImpl i = verImpl j := by
   obtain ⟨hids, hfeats, hforms⟩ := h
   obtain ⟨wids, wforms, wf'⟩ := wf
   unfold verImpl
@@ -149,7 +153,7 @@ theorem C20_equal_key_identities_keep_order (a b : Identity) (h : idKey a = idKe
   simp [verImpl, hs, sortStrings]
 
 /-- … hence the string depends on that order: a well-formed info (no two identities equal in
-all four fields) whose rearrangement hashes differently.  This is why `C20_perm_invariant`
+all four fields) whose rearrangement hashes differently.  This is why `C20_perm_invariant_partial`
 carries the hypothesis on identities (the property's quantifier has it too). -/
 theorem C20_equal_key_identities_order_dependent :
     ∃ a b : Identity, a ≠ b ∧ idKey a = idKey b ∧
@@ -158,6 +162,58 @@ theorem C20_equal_key_identities_order_dependent :
   rw [C20_equal_key_identities_keep_order ⟨[0x63], [0x74], [], [0x41]⟩ ⟨[0x63], [0x74], [], [0x42]⟩ rfl,
     C20_equal_key_identities_keep_order ⟨[0x63], [0x74], [], [0x42]⟩ ⟨[0x63], [0x74], [], [0x41]⟩ rfl]
   decide
+
+/-! ### What `Info.WF` excludes although the property's quantifier does not (round E, review C20-1/7)
+
+XEP-0115 5.4 declares ill-formed: two identities equal in all four attributes, two forms with
+the same `FORM_TYPE`, a `FORM_TYPE` with several different values.  It does *not* say so of
+forms that have no `FORM_TYPE` (3.6: such a form is ignored), nor of fields that share a `var`
+(two `fixed` fields without `var` are ordinary XEP-0004).  The code keeps the given order
+among such items (stable sorts), so the string depends on it. -/
+
+/-- two forms without `FORM_TYPE` are hashed in the order given -/
+theorem C20_forms_without_type_order_dependent :
+    ∃ F G : Form, F.formType = G.formType ∧
+      (∀ fd ∈ F.fields ++ G.fields, fd.var ≠ formTypeVar) ∧
+      verImpl ⟨[], [], [F, G]⟩ ≠ verImpl ⟨[], [], [G, F]⟩ := by
+  refine ⟨⟨[⟨[0x61], [[0x31]]⟩]⟩, ⟨[⟨[0x62], [[0x32]]⟩]⟩, by decide, by decide, ?_⟩
+  simp [verImpl, mergeSort_pair, formLe, Form.formType, formTypeVar, lexLe, renderForm,
+    Form.dataFields, renderField, sortStrings, renderFeat, lt]
+
+/-- an empty form next to a form without `FORM_TYPE`: same thing -/
+theorem C20_empty_form_order_dependent :
+    ∃ G : Form, verImpl ⟨[], [], [⟨[]⟩, G]⟩ ≠ verImpl ⟨[], [], [G, ⟨[]⟩]⟩ := by
+  refine ⟨⟨[⟨[0x61], [[0x31]]⟩]⟩, ?_⟩
+  simp [verImpl, mergeSort_pair, formLe, Form.formType, formTypeVar, lexLe, renderForm,
+    Form.dataFields, renderField, sortStrings, renderFeat, lt]
+
+/-- two fields with the same `var` (in particular two `fixed` fields without `var`) inside a
+form with a proper `FORM_TYPE` are hashed in the order given -/
+theorem C20_equal_var_fields_order_dependent :
+    ∃ f g : Field, f.var = g.var ∧ f.var ≠ formTypeVar ∧
+      verImpl ⟨[], [], [⟨[⟨formTypeVar, [[0x74]]⟩, f, g]⟩]⟩ ≠
+      verImpl ⟨[], [], [⟨[⟨formTypeVar, [[0x74]]⟩, g, f]⟩]⟩ := by
+  refine ⟨⟨[], [[0x78]]⟩, ⟨[], [[0x79]]⟩, rfl, by decide, ?_⟩
+  simp [verImpl, mergeSort_pair, fieldLe, Form.formType, formTypeVar, lexLe, renderForm,
+    Form.dataFields, renderField, sortStrings, renderFeat, lt]
+
+theorem all₂_refl {α} {R : α → α → Prop} (h : ∀ a, R a a) : ∀ l : List α, All₂ R l l
+  | [] => .nil
+  | a :: l => .cons (h a) (all₂_refl h l)
+
+theorem formEqv_refl (F : Form) : FormEqv F F :=
+  ⟨F.fields, .refl _, all₂_refl (fun _ => ⟨rfl, .refl _⟩) _⟩
+
+/-- **Negation witness of the full-strength clause**: "the verification string depends only on
+the sets, not on the order" with the property's own side condition (identities distinct in
+category/type/language) and nothing else is false of the code. -/
+theorem C20_perm_invariant_fails :
+    ¬ ∀ i j : Info, InfoEqv i j → i.ids.Pairwise (fun a b => idKey a ≠ idKey b) →
+      verImpl i = verImpl j := by
+  intro h
+  obtain ⟨F, G, _, _, hne⟩ := C20_forms_without_type_order_dependent
+  exact hne (h ⟨[], [], [F, G]⟩ ⟨[], [], [G, F]⟩
+    ⟨.refl _, .refl _, [G, F], List.Perm.swap _ _ _, all₂_refl formEqv_refl _⟩ .nil)
 
 /-! ### Agreement with XEP-0115 §5.1 -/
 
@@ -216,7 +272,7 @@ theorem C20_hash_append (hash b64 : Bytes → Bytes) (i : Info) :
 entry point, for every hash function -/
 theorem C20_hash_perm_invariant (hash b64 : Bytes → Bytes) (i j : Info) (h : InfoEqv i j)
     (wf : i.WF) : hashStr hash b64 i = hashStr hash b64 j := by
-  simp [hashStr, appendHash, C20_perm_invariant i j h wf]
+  simp [hashStr, appendHash, C20_perm_invariant_partial i j h wf]
 
 /-! ### Totality: the shapes that used to panic or have no FORM_TYPE -/
 
